@@ -105,6 +105,15 @@ class SubPacket(Dispatchable):
 class Signature(SubPacket):
     __typeid__ = -1
 
+    @staticmethod
+    def _decode_text(val):
+        # text in signature subpackets is UTF-8; tolerate producers that wrote something else
+        try:
+            return val.decode('utf-8')
+
+        except UnicodeDecodeError:
+            return val.decode('latin-1')
+
 
 class UserAttribute(SubPacket):
     __typeid__ = -1
